@@ -298,9 +298,61 @@ def check_dup(case: t.Any, ctx: Ctx) -> None:
         ctx.fail('duplicate-tags-refused', 'distinct-refused', f"distinct tags {vals} refused: {r}")
 
 
+# ---- the declared tags are the tags, whatever instances have been written ---------------------------------------------------------
+#
+# A variant whose tag field admits more than its declared tag (kind: Literal['circle', 'Circle'] = 'circle', or a plain str) can hold
+# an undeclared tag in an instance.  Whatever serialising such an instance does, data carrying the undeclared tag is refused -
+# before and after - with an error that names the tag: "chosen by the tag value alone", by the tags the type declares.
+
+def undeclared_cases(shard: int, nshards: int) -> t.Iterator[t.Any]:
+    i = 0
+    for layout in ('internal', 'external', 'adjacent'):
+        for field_kind in ('literal-of-two', 'plain-str'):
+            for where in ('bare', 'List'):
+                if i % nshards == shard:
+                    yield [layout, field_kind, where]
+                i += 1
+
+
+def check_undeclared(case: t.Any, ctx: Ctx) -> None:
+    import pane
+    from pane.annotations import Tagged
+    (layout, field_kind, where) = case
+    KT = t.Literal['circle', 'Circle'] if field_kind == 'literal-of-two' else str
+    Circle = type('Circle', (pane.PaneBase,), {'__annotations__': {'kind': KT, 'r': float}, 'kind': 'circle', 'r': 1.0})
+    Square = type('Square', (pane.PaneBase,), {'__annotations__': {'kind': t.Literal['square'], 's': float}, 'kind': 'square', 's': 1.0})
+    ext = {'internal': False, 'external': True, 'adjacent': ('t', 'c')}[layout]
+    ctx.label(f"undeclared-tag:{layout}", field_kind, where)
+    ctx.nontrivial(True)
+    try:
+        U = t.Annotated[t.Union[Circle, Square], Tagged('kind', ext)]
+        ok_data = {'internal': {'kind': 'circle', 'r': 2.0}, 'external': {'circle': {'r': 2.0}}, 'adjacent': {'t': 'circle', 'c': {'r': 2.0}}}[layout]
+        first = pane.from_data(ok_data, U)
+    except Exception:
+        return      # (such a tag field is not taken as a tag at all: nothing to check)
+    if not isinstance(first, Circle):
+        return
+    bad_data = {'internal': {'kind': 'Circle', 'r': 2.0}, 'external': {'Circle': {'r': 2.0}}, 'adjacent': {'t': 'Circle', 'c': {'r': 2.0}}}[layout]
+    (T, bad, good) = (U, bad_data, ok_data) if where == 'bare' else (t.List[U], [bad_data], [ok_data])
+    ctx.evaluated(2)
+    before = outcome(lambda: pane.from_data(bad, T))
+    inst = Circle.make_unchecked(kind='Circle', r=3.0)
+    written = outcome(lambda: pane.into_data(inst if where == 'bare' else [inst], T))
+    after = outcome(lambda: pane.from_data(bad, T))
+    ident = f"Union[Circle(kind: {field_kind} = 'circle'), Square] tagged {layout} ({where}); data {bad!r}"
+    for (when, o) in (('before', before), ('after into_data of an instance holding the tag', after)):
+        if o[0] != 'ce':
+            ctx.fail('bad-tag-named', f"undeclared-tag-accepted:{when.split(' ')[0]}", f"{ident}: {when}: {o[0]} {short(o[1], 120)} (into_data gave {written[0]} {short(written[1], 80)}); "
+                     "'Circle' is not a declared tag")
+            return
+    if str(before[1]) != str(after[1]):
+        ctx.fail('bad-tag-named', 'undeclared-tag-message-changed', f"{ident}: refusal before: {str(before[1])[:200]!r}; after into_data of an instance holding the tag: {str(after[1])[:200]!r}")
+
+
 def suites(tier: str) -> t.List[Suite]:
     big = tier == 'thorough'
     return [
         Suite('tagged', check, strategy=tagged_cases, examples=8000 if big else 600, budget_s=480 if big else 40, render=render),
+        Suite('undeclared-tag-instance', check_undeclared, cases=undeclared_cases, exhaustive=True, budget_s=30, render=lambda c: {'layout': c[0], 'tag field': c[1], 'where': c[2]}),
         Suite('duplicates', check_dup, cases=dup_cases, budget_s=60),
     ]
